@@ -688,6 +688,25 @@ def call(f: T, *args: T) -> T:
     if f.op == "name" and f.args[0] == "builtins.getattr" and len(args) == 2 and args[1].op == "const" and \
             isinstance(args[1].args[0], str) and args[0].op != "kw":
         return mk("attr", args[0], args[1].args[0])         # getattr(obj, "name") is obj.name
+    if f.op == "name" and f.args[0] in ("jax.lax.select", "jax.lax.select_n") and len(args) == 3 and \
+            not any(a_.op == "kw" for a_ in args) and f.args[0].endswith("select"):
+        # lax.select(pred, a, b) is where(pred, a, b) on operands of one shape: a predicate broadcast to that shape and a
+        # zeros_like / full_like filler are what where() takes as a per-column flag and a literal
+        def unbroadcast(c_):
+            if c_.op == "call" and c_.args[0].op == "name" and c_.args[0].args[0].split(".")[-1] == "broadcast_to" and \
+                    len(c_.args) == 3:
+                return c_.args[1]
+            return c_
+
+        def literal(v_):
+            if v_.op == "call" and v_.args[0].op == "name" and v_.args[0].args[0].split(".")[-1] == "zeros_like" and \
+                    len(v_.args) == 2:
+                return const(0.0)
+            if v_.op == "call" and v_.args[0].op == "name" and v_.args[0].args[0].split(".")[-1] == "full_like" and \
+                    len(v_.args) == 3 and v_.args[2].op == "const":
+                return v_.args[2]
+            return v_
+        return call(name("jax.numpy.where"), unbroadcast(args[0]), literal(args[1]), literal(args[2]))
     if f.op == "name" and f.args[0].split(".")[-1] == "select" and f.args[0].split(".")[0] in ("jax", "numpy"):
         r_ = _canon_select(f, args)
         if r_ is not None:
@@ -1826,6 +1845,8 @@ class Evaluator:
         """field names, in constructor order, of a class whose instances are plain records: a NamedTuple, or a private
         dataclass without constructor logic"""
         ci = self.p.classes.get(q)
+        if ci is not None and not ci.is_dataclass:
+            return self._init_record_fields(ci)
         if ci is None or not ci.is_dataclass:
             return None
         if not getattr(ci, "is_namedtuple", False):
@@ -1835,11 +1856,99 @@ class Evaluator:
                 return None
         return [f.name for f in self.p.dataclass_fields(q)]
 
+    _init_rec_cache: Dict[str, Optional[List[str]]] = {}
+
+    def _init_record_fields(self, ci) -> Optional[List[str]]:
+        """A private plain class (no dataclass, no in-package base) whose __init__ is a straight line of assignments to
+        locals and to self.<name>: its instances are records of those attributes, in assignment order."""
+        key_ = ci.qualname + "@" + str(id(self.p))
+        if key_ in self._init_rec_cache:
+            return self._init_rec_cache[key_]
+        out: Optional[List[str]] = None
+        init = ci.methods.get("__init__")
+        bases_ok = all(self.p.classes.get(c_) is None for c_ in ci.mro[1:])
+        if ci.name.startswith("_") and init is not None and bases_ok and not any(
+                m_ in ci.methods for m_ in ("__new__", "__setattr__", "__getattr__", "__getattribute__", "__slots__")):
+            names: List[str] = []
+            ok = True
+            for st in init.real_body():
+                tg = None
+                if isinstance(st, ast.Assign) and len(st.targets) == 1:
+                    tg = st.targets[0]
+                elif isinstance(st, ast.AnnAssign) and st.value is not None:
+                    tg = st.target
+                else:
+                    ok = False
+                    break
+                tgs = list(tg.elts) if isinstance(tg, (ast.Tuple, ast.List)) else [tg]
+                for t_ in tgs:
+                    if isinstance(t_, ast.Name):
+                        continue
+                    if isinstance(t_, ast.Attribute) and isinstance(t_.value, ast.Name) and t_.value.id == "self":
+                        if t_.attr not in names:
+                            names.append(t_.attr)
+                        continue
+                    ok = False
+            # the methods only read the attributes
+            for m_ in ci.methods.values():
+                if m_ is init:
+                    continue
+                for n_ in ast.walk(m_.node):
+                    if isinstance(n_, ast.Attribute) and isinstance(n_.value, ast.Name) and n_.value.id == "self" and \
+                            isinstance(n_.ctx, (ast.Store, ast.Del)):
+                        ok = False
+            if ok and names:
+                out = names
+        self._init_rec_cache[key_] = out
+        return out
+
+    def _make_init_record(self, fr, f: T, ci, names: List[str], args: List[T], kws: List[T], line: int) -> Optional[T]:
+        from .model import bind_call
+        init = ci.methods["__init__"]
+        kwd = {k.args[0]: k.args[1] for k in kws if k.op == "kw"}
+        if len(kwd) != len(kws):
+            return None
+        ok, _, mapping = bind_call(init, len(args), list(kwd), True)
+        if not ok or any(q.kind in ("vararg", "kwarg") for q in init.params) or self._depth >= self.MAX_INLINE_DEPTH:
+            return None
+        sub = self.new_frame(init, None, None)
+        sub.caller = fr
+        sub.self_class = ci.qualname
+        inst = sym(f"§new:{ci.name}:{line}")
+        pp = init.pos_params()
+        binding = {pp[0].name: inst} if pp else {}
+        for pname, m in mapping.items():
+            binding[pname] = args[m[1]] if m[0] == "pos" else kwd[m[1]]
+        for prm in init.params:
+            if prm.name in binding:
+                sub.env.vars[prm.name] = binding[prm.name]
+            elif prm.default is not None:
+                sub.env.vars[prm.name] = self.eval(sub, prm.default)
+            else:
+                return None
+        sub.path, sub.loops = fr.path, fr.loops
+        self._depth += 1
+        try:
+            self.exec_block(sub, init.body())
+        finally:
+            self._depth -= 1
+        self_name = pp[0].name if pp else "self"
+        vals = []
+        for n_ in names:
+            v = sub.env.vars.get(f"{self_name}.{n_}")
+            if v is None:
+                return None
+            vals.append(v)
+        return mk("record", ci.qualname, *vals)
+
     def make_record(self, fr, f: T, args: List[T], kws: List[T], line: int) -> Optional[T]:
         q = f.args[0]
         names = self.record_fields(q)
         if names is None or any(a.op in ("star", "dstar") for a in args + kws):
             return None
+        ci_ = self.p.classes.get(q)
+        if ci_ is not None and not ci_.is_dataclass:
+            return self._make_init_record(fr, f, ci_, names, args, kws, line)
         flds = self.p.dataclass_fields(q)
         vals: Dict[str, T] = {}
         if len(args) > len(names):
@@ -3048,9 +3157,13 @@ class Evaluator:
             return self.exact_types[t]
         c = None
         f = fr
-        while f is not None and c is None:
+        seen_ = 0
+        while f is not None and c is None and seen_ < 64:
             c = f.types.get(t)
-            f = f.parent
+            # lexically enclosing frame first; a function evaluated in place also sees what its call site knows about the
+            # terms handed to it (a bound method passed as a value keeps the class of its receiver)
+            f = f.parent if f.parent is not None else getattr(f, "caller", None)
+            seen_ += 1
         if c is None:
             c = self.types.get(t)
         if c is None and t.op == "call" and t.args[0].op == "cls":
